@@ -41,6 +41,16 @@ def _psds(d, rng, lead, D):
         r = 1 if tk == 'rank1' else d.int(1, D)
         a = gen.cnormal(rng, (*lead, D, r))
         phi_xx = a @ np.swapaxes(a.conj(), -1, -2) * scale
+    # a real symmetric PSD is Hermitian too (real-valued target and/or noise)
+    dt = d.choice(['complex', 'complex', 'complex', 'real-target', 'real-both'])
+    if dt != 'complex':
+        if tk == 'full':
+            phi_xx = gen.spd(rng, D, 10, scale, lead)
+        else:
+            a = rng.normal(size=a.shape) + 0j
+            phi_xx = (a @ np.swapaxes(a.conj(), -1, -2)).real * scale
+        if dt == 'real-both':
+            phi_nn = gen.spd(rng, D, cond, scale, lead)
     return phi_xx, phi_nn, tk, cond, scale, a
 
 
